@@ -321,6 +321,7 @@ class Analysis:
                 self.names.setdefault(int(m.group(1)), k)
         self.param_types = dict(body.params)
         self.havoc = {}                 # loop header -> set(keys)
+        self.live_keys = {}             # switched-on term -> set of live outcome keys (for join completeness)
         self.guards = []
         self.calls = []
         self.block_in = {}
@@ -444,31 +445,94 @@ class Analysis:
 
     # ------------------------------------------------------------------ merging
     def _merge(self, ins, bb):
+        """join of the states arriving at `bb`. Values become a decision tree (γ/Γ) over the decisions taken since the
+        paths diverged. If the arriving paths are not *all* the paths below their common prefix (some sibling of a
+        decision went elsewhere: to another join, or to an Err exit), the joined state carries a synthetic decision
+        ('pathset', bb, suffixes) so that nothing after the join is mistaken for unconditional."""
         if len(ins) == 1:
             return ins[0].copy()
-        return self._merge_group(list(ins), bb)
-
-    def _merge_group(self, states, bb):
-        if len(states) == 1:
-            return states[0]
-        # longest common prefix of all path conditions
+        states = list(ins)
         pcs = [s.pc for s in states]
         L = 0
         m = min(len(p) for p in pcs)
         while L < m and all(p[L] == pcs[0][L] for p in pcs):
             L += 1
-        if any(len(p) == L for p in pcs):
-            # one path made no further decision: cannot gate -> identical values kept, others widened
-            return self._merge_blind(states, pcs[0][:L], bb)
-        cond0 = pcs[0][L][0]
-        if any(p[L][0] != cond0 for p in pcs):
-            return self._merge_blind(states, pcs[0][:L], bb)
+        prefix = pcs[0][:L]
+        pairs = []
+        try:
+            for s in states:
+                for seq in self._expand(s.pc[L:]):
+                    pairs.append((seq, s))
+                if len(pairs) > 512:
+                    raise OverflowError
+            out, complete = self._merge_pairs(pairs, bb)
+        except OverflowError:
+            out, complete = self._merge_blind(states, (), bb), False
+        if complete:
+            out.pc = prefix
+        else:
+            out.pc = prefix + ((('pathset', str(bb), tuple(s.pc[L:] for s in states)), '1'),)
+        return self._reorder(out)
+
+    def _merge_group(self, states, bb):
+        return self._merge(states, bb)
+
+    def _expand(self, suffix):
+        """decision sequences denoted by a pc suffix (pathset decisions stand for several)"""
+        seqs = [()]
+        for c, o in suffix:
+            if c[0] == 'pathset' and o == '1':
+                subs = []
+                for alt in c[2]:
+                    subs.extend(self._expand(alt))
+                seqs = [a + b for a in seqs for b in subs]
+            else:
+                seqs = [a + ((c, o),) for a in seqs]
+            if len(seqs) > 512:
+                raise OverflowError
+        return seqs
+
+    def _complete(self, seqs):
+        """do these decision sequences form a complete decision tree (every live outcome of every decision present)?"""
+        if any(len(q) == 0 for q in seqs):
+            return all(len(q) == 0 for q in seqs)
+        c0 = seqs[0][0][0]
+        if any(q[0][0] != c0 for q in seqs):
+            return False
         groups = {}
-        for s in states:
-            groups.setdefault(s.pc[L][1], []).append(s)
-        merged = {k: self._merge_group(v, bb) for k, v in groups.items()}
+        for q in seqs:
+            groups.setdefault(q[0][1], []).append(q[1:])
+        live = self.live_keys.get(c0)
+        if live is None or set(groups) != live:
+            return False
+        return all(self._complete(g) for g in groups.values())
+
+    def _merge_pairs(self, pairs, bb):
+        """pairs: [(decision sequence, state)] -> (State without pc, complete?)"""
+        distinct = []
+        for _, s in pairs:
+            if not any(s is x for x in distinct):
+                distinct.append(s)
+        if len(distinct) == 1:
+            return State(distinct[0].store.copy(), ()), self._complete([q for q, _ in pairs])
+        if any(len(q) == 0 for q, _ in pairs):
+            return self._merge_blind(distinct, (), bb), False
+        cond0 = pairs[0][0][0][0]
+        if any(q[0][0] != cond0 for q, _ in pairs):
+            return self._merge_blind(distinct, (), bb), False
+        groups = {}
+        for q, s in pairs:
+            groups.setdefault(q[0][1], []).append((q[1:], s))
+        merged = {}
+        complete = True
+        for k, v in groups.items():
+            merged[k], c = self._merge_pairs(v, bb)
+            complete = complete and c
+        live = self.live_keys.get(cond0)
+        if live is None or set(groups) != live:
+            complete = False
         keys = sorted(merged.keys(), key=str)
-        out = State(Store(), pcs[0][:L])
+        out = State(Store(), ())
         allkeys = set()
         for s in merged.values():
             allkeys |= set(s.store.keys())
@@ -485,8 +549,7 @@ class Analysis:
                 out.store.set(k, mk('gamma', cond0, vals[keys.index(other)], tv))
             else:
                 out.store.set(k, ('Gamma', cond0, tuple((o, v) for o, v in zip(keys, vals))))
-        # keep overlay invariant: drop entries shadowed inconsistently is unnecessary (set() handles order by length)
-        return self._reorder(out)
+        return self._reorder(out), complete
 
     def _reorder(self, st):
         # Store.set deletes longer keys when a shorter one is written afterwards; re-insert shortest-first
@@ -1006,6 +1069,11 @@ class Analysis:
             same_target = {}
             for key, tgt in live:
                 same_target.setdefault(tgt, []).append(key)
+            if len(live) > 1:
+                lk = set('|'.join(keys) for keys in same_target.values())
+                if d in self.live_keys and self.live_keys[d] != lk:
+                    lk = lk | self.live_keys[d] | {'?'}          # same term switched on twice with different arms: never complete
+                self.live_keys[d] = lk
             for tgt, keys in same_target.items():
                 st2 = State(st.store, st.pc + ((d, '|'.join(keys)),)) if len(live) > 1 else st
                 # normalise bool switches: keys '0' and 'otherwise'
